@@ -102,6 +102,17 @@ def walk_checks(ctx, case, t1, t2, tree):
     return n
 
 
+def report_types_ok(ctx, case, tree):
+    """every node sits in the category its report_type names (pretty() words its statement by the report_type)"""
+    for cat, levels in tree.items():
+        if cat == 'deep_distance' or not hasattr(levels, '__iter__'):
+            continue
+        for lv in levels:
+            if getattr(lv, 'report_type', cat) != cat:
+                ctx.violate(case, 'a node of category %s carries report_type %r: pretty() describes it as another kind of change than the views list' % (cat, lv.report_type))
+                return
+
+
 def tree_snapshot(tree):
     """what the tree view says, node by node: category, path, the two objects and the additional record (repetition counts, ...)"""
     out = []
@@ -280,6 +291,7 @@ def run(ctx, impl_only=False):
                     ctx.nontriv((repr(t1), repr(t2), io, rep, vb))
                 ctx.count('io=%s' % io)
                 before = tree_snapshot(tree)
+                report_types_ok(ctx, case, tree)
                 ctx.count('nodes', walk_checks(ctx, case, t1, t2, tree))
                 agree(ctx, case, tree, text, vb)
                 # to_dict(view_override) converts between the views
